@@ -1,4 +1,5 @@
 import PbVerif.Lemmas.BSpline
+import PbVerif.Lemmas.BSplineAffine
 /-! C12 — the spline design matrix is the B-spline basis; its normal equations are exact. -/
 namespace PbVerif.C12
 open PbVerif.BSpline PbVerif.Lemmas
@@ -54,5 +55,71 @@ theorem basisMidpoints_count (numKnots deg : Nat) (h : 2 ≤ numKnots) :
 example : deBoor (splineKnots 0 1 3 2) (1/4) 2 2 = [1/8, 3/4, 1/8] ∧
     InInterval (splineKnots 0 1 3 2) (1/4) 2 := by
   refine ⟨by decide +kernel, ⟨by decide +kernel, by decide +kernel, by decide +kernel, by decide +kernel, by decide +kernel⟩⟩
+
+/-! ### invariance under the magnitude of the x-axis
+
+`t ↦ a·t + b` with `a > 0` (any offset `b`, any scale over any number of decades) applied to the abscissae AND
+the knot vector changes nothing, exactly: `_find_interval` only compares `x` with knots, `_de_boor` only forms
+ratios `(x - knot)/(knot - knot)`, and `_spline_knots` builds the knots from `min`, `max` and their difference.
+An absolute tolerance anywhere in these (e.g. `isclose(left_knot, right_knot)` for `left_knot == right_knot`)
+contradicts the statements below at small `a`. -/
+
+/-- `_de_boor`: all `degree+1` values are unchanged.  The degenerate branch `left_knot == right_knot → continue`
+is taken for the mapped knots exactly when it is taken for the original ones; this (and the whole statement)
+needs only `a ≠ 0`.  Guards of the real code: `deg ≤ left` (no negative knot index), `left + deg < len(knots)`. -/
+theorem deBoor_affine_invariant (a b : Rat) (ha : a ≠ 0) (knots : List Rat) (x : Rat) (deg left : Nat)
+    (hd : deg ≤ left) (hk : left + deg < knots.length) :
+    deBoor (knots.map (fun t => a * t + b)) (a * x + b) deg left = deBoor knots x deg left :=
+  have _ := hd; Affine.deBoorUpTo_aff a b ha knots x left deg hk
+
+/-- `_find_interval`: the same interval index, for every starting guess `lastLeft` (needs `a > 0`: the map must
+preserve `<`); `len(knots) = num_bases + deg + 1` as in `_make_design_matrix` -/
+theorem findInterval_affine_invariant (a b : Rat) (ha : 0 < a) (knots : List Rat) (deg : Nat) (x : Rat)
+    (lastLeft nb : Nat) (hd : deg < nb) (hlen : knots.length = nb + deg + 1) :
+    findInterval (knots.map (fun t => a * t + b)) deg (a * x + b) lastLeft nb = findInterval knots deg x lastLeft nb :=
+  Affine.findInterval_aff a b ha knots deg x lastLeft nb hd (by omega)
+
+/-- `__make_design_matrix`: the whole design matrix (interval indices and values of every row) is unchanged when
+x and the knot vector are mapped by the same increasing affine map -/
+theorem designRows_affine_invariant (a b : Rat) (ha : 0 < a) (knots : List Rat) (deg : Nat) (xs : List Rat)
+    (h : deg < knots.length - (deg + 1)) :
+    designRows (knots.map (fun t => a * t + b)) deg (xs.map (fun t => a * t + b)) = designRows knots deg xs :=
+  Affine.designRows_aff a b ha knots deg xs h
+
+/-- `_spline_knots(…, penalized=True)` commutes with the map: knots of `a·x + b` are `a·knots(x) + b`
+(`num_knots ≥ 2` is the guard of the real code, `ValueError` otherwise; the extremes of `a·x + b` are the images of
+the extremes of `x` for `a > 0`, `xKnots_affine`) -/
+theorem splineKnots_affine (a b xmin xmax : Rat) (nk deg : Nat) (hnk : 2 ≤ nk) :
+    splineKnots (a * xmin + b) (a * xmax + b) nk deg = (splineKnots xmin xmax nk deg).map (fun t => a * t + b) :=
+  have _ := hnk; Affine.splineKnots_aff a b xmin xmax nk deg
+theorem xKnots_affine (a b : Rat) (ha : 0 < a) (xs : List Rat) (hx : xs ≠ []) (nk deg : Nat) (hnk : 2 ≤ nk) :
+    xKnots (xs.map (fun t => a * t + b)) nk deg = (xKnots xs nk deg).map (fun t => a * t + b) :=
+  have _ := hnk; Affine.xKnots_aff a b ha xs hx nk deg
+
+/-- **the P-spline basis does not depend on the magnitude of x**: knots built from `a·x + b`, basis evaluated at
+`a·x + b` — the same matrix as for `x`; hence the same `B'WB` and `B'Wy` for all data and weights -/
+theorem basis_magnitude_free (a b : Rat) (ha : 0 < a) (xs : List Rat) (hx : xs ≠ []) (nk deg : Nat) (hnk : 2 ≤ nk) :
+    pSplineBasis (xs.map (fun t => a * t + b)) nk deg = pSplineBasis xs nk deg :=
+  Affine.pSplineBasis_aff a b ha xs hx nk deg hnk
+theorem normal_equations_magnitude_free (a b : Rat) (ha : 0 < a) (xs : List Rat) (hx : xs ≠ []) (nk deg : Nat)
+    (hnk : 2 ≤ nk) (nb : Nat) (ys ws : List Rat) :
+    btbBty deg nb (pSplineBasis (xs.map (fun t => a * t + b)) nk deg) ys ws =
+      btbBty deg nb (pSplineBasis xs nk deg) ys ws := by
+  rw [basis_magnitude_free a b ha xs hx nk deg hnk]
+
+/-- non-vacuity: 6 unevenly spaced points, 3 knots, quadratic; `a = 10⁻³⁰, b = 0` and `a = 1, b = 1.7·10⁹`: the
+hypotheses hold and the common value is a genuine basis (second row), the knots really move -/
+example :
+    (pSplineBasis ([0, 1/3, 1/2, 7/10, 9/10, 1].map (fun t => (1 / 1000000000000000000000000000000 : Rat) * t + 0)) 3 2).map
+        (fun r => (r.left, r.vals)) = (pSplineBasis [0, 1/3, 1/2, 7/10, 9/10, 1] 3 2).map (fun r => (r.left, r.vals)) ∧
+    (pSplineBasis ([0, 1/3, 1/2, 7/10, 9/10, 1].map (fun t => 1 * t + 1700000000)) 3 2).map
+        (fun r => (r.left, r.vals)) = (pSplineBasis [0, 1/3, 1/2, 7/10, 9/10, 1] 3 2).map (fun r => (r.left, r.vals)) ∧
+    ((pSplineBasis [0, 1/3, 1/2, 7/10, 9/10, 1] 3 2).map (fun r => (r.left, r.vals))).getD 1 (0, []) = (2, [1/18, 13/18, 2/9]) ∧
+    xKnots ([0, 1/3, 1/2, 7/10, 9/10, 1].map (fun t => 1 * t + 1700000000)) 3 2 =
+      [1699999999, 3399999999/2, 1700000000, 3400000001/2, 1700000001, 3400000003/2, 1700000002] := by
+  refine ⟨by decide +kernel, by decide +kernel, by decide +kernel, by decide +kernel⟩
+/-- a degenerate (repeated-knot) interval: the `left_knot == right_knot` branch is taken on both sides -/
+example : deBoor ([0, 0, 0, 1, 1, 1].map (fun t => (1 / 1000000000000000000000000000000 : Rat) * t + 5)) ((1 / 1000000000000000000000000000000 : Rat) * (1/4) + 5) 2 2 =
+    deBoor [0, 0, 0, 1, 1, 1] (1/4) 2 2 ∧ deBoor [0, 0, 0, 1, 1, 1] (1/4) 2 2 = [9/16, 3/8, 1/16] := by decide +kernel
 
 end PbVerif.C12
